@@ -13,6 +13,7 @@ pub mod params;
 pub mod chain;
 pub mod snapshot;
 pub mod symbols;
+pub mod text;
 pub mod expr;
 
 /// SplitMix64: every random choice of a run derives from one state.
